@@ -20,6 +20,30 @@ CHECKS = {
              "increment proved with a loop invariant and variant; remaining addressing forms in progress.",
         note=TB + " Character classes exact on ASCII inputs.", technique="contracts + loop invariants + spec-function lemmas, z3"),
 }
+CHECKS["C18"] = dict(
+    text="Colour, boolean and duration codecs proved against spec functions for all inputs (hex2rgb incl. the rejection "
+         "clause, rgb2hex, Boolean, Duration.encode over the full timedelta range with an IEEE-754 division model; "
+         "round-trip lemmas); Duration.decode, Date/DateTime glue and the CSS name table are bounded stand-ins.",
+    note=TB + " datetime.isoformat/fromisoformat, Decimal assumed (sampled).",
+    technique="contracts + spec-function lemmas discharged by z3/cvc5; labelled bounded stand-ins for stdlib glue")
+CHECKS["C14"] = dict(
+    text="make_xpath_query proved to paste a well-formed XPath literal for every identifier without a double quote, for "
+         "each identifier keyword; identifiers with a double quote are a listed known finding.",
+    note=TB + " lxml's XPath evaluator assumed.", technique="string VCs from the real AST, z3")
+CHECKS["C06"] = dict(
+    text="Type-lattice dispatch of ElementTyped.set_value_and_type and Meta.set_user_defined_metadata proved per Python "
+         "type (bool before int, datetime before date; attribute written per ODF value type); codecs via C18 contracts.",
+    note=TB + " Element.get/set/del_attribute modelled as an attribute map (assumed thin lxml wrappers).",
+    technique="symbolic execution over an attribute-map model, one case per type, z3")
+CHECKS["C02"] = dict(
+    text="Representation invariant (maps = prefix sums of the XML repeats, caches coherent or reset) proved as a "
+         "postcondition of the vault-level mutators for all run-length states; higher layers in progress.",
+    note=TB + " lxml child-list operations as an abstract sequence model (flat table layout).",
+    technique="representation invariant + abstract view, VCs from the real AST, z3")
+CHECKS["C07"] = dict(
+    text="Map/repeat consistency clauses of the vault invariant proved for set/insert/delete of items of all three kinds.",
+    note=TB + " lxml child-list operations as an abstract sequence model (flat table layout).",
+    technique="representation invariant, VCs from the real AST, z3")
 NOT_APPLICABLE = {p: "not yet under contract in this revision (work in progress; see DESIGN.md §4 for the plan)"
-                  for p in ["C02", "C03", "C04", "C05", "C06", "C07", "C08", "C09", "C10", "C11", "C12", "C13", "C14",
-                            "C15", "C16", "C17", "C18", "C20"]}
+                  for p in ["C03", "C04", "C05", "C08", "C09", "C10", "C11", "C12", "C13",
+                            "C15", "C16", "C17", "C20"]}
